@@ -89,8 +89,13 @@ pub fn gen_def(
                 }
             }
 
+            // A body may only let escape what this function declares, whatever is caught at the
+            // place of the definition.
             let raises = raises.into_iter().map(|(_, r)| r.unwrap()).collect();
-            let body_env = body_env.raises_caught(&raises);
+            let body_env = Environment {
+                raises_caught: raises,
+                ..body_env
+            };
 
             let body_env = if let Some(body) = body {
                 if let Some(ret_ty) = ret_ty {
